@@ -43,6 +43,8 @@ def expr_src(e, root):
         return "(%s %s %s)" % (expr_src(e[2], root), BINOPS[e[1]], expr_src(e[3], root))
     if k == "not":
         return "(~%s)" % expr_src(e[1], root)
+    if k == "dynref":
+        return "%s.%s()" % (".".join([root] + list(e[1])), e[2])
     if k in ("in", "notin"):
         items = []
         for it in e[2]:
@@ -95,7 +97,7 @@ def stmts_src(stmts, root, ind):
             out.append(pad + "with vsc.foreach(%s, idx=True, it=True) as (_i, _it):" % expr_src(["f", s[1]], root))
             out += stmts_src(s[2], root, ind + 1)
         elif k == "dyn":
-            out.append(pad + "%s.%s()" % (root, s[1]))
+            out.append(pad + "%s.%s()" % (".".join([root] + list(s[1])), s[2]))
         else:
             raise Exception("unknown stmt " + repr(s))
     return out
